@@ -49,6 +49,7 @@ type c26run struct {
 	failure  *simrt.Failure
 	rewrote  int
 	strat    int
+	cpus     int
 	sim      *simrt.Sim
 	exitCode int
 }
@@ -77,6 +78,7 @@ var invalidSrc = "package main\n\nfunc {  // %d\n"
 func (c26) NewRun(plan *simrt.Source, job *harn.Job) harn.Run {
 	r := &c26run{extra: map[string]int{}}
 	r.strat = plan.Draw(2)
+	r.cpus = []int{1, 2, 4, 16}[plan.Draw(4)] // what the simulated machine reports as GOMAXPROCS / NumCPU
 	n := 1 + plan.Draw(5)
 	modes := []os.FileMode{0644, 0600, 0664, 0640, 0755, 0444}
 	exts := []string{".xgo", ".gop", ".go", ".gox", ".xgo", ".go"}
@@ -223,6 +225,8 @@ func (r *c26run) Strategy() simrt.Strategy { return simrt.Strategy{Kind: r.strat
 // Body is simulated goroutine 0: the command is sequential today, but the
 // package is instrumented, so goroutines, locks and channels an edit adds to it
 // are scheduled by the simulator (and a run stays replayable).
+func (r *c26run) CPUs() int { return r.cpus }
+
 func (r *c26run) Body(s *simrt.Sim) {
 	r.sim = s
 	res := r.runSeq(s.Sched(), true)
